@@ -86,6 +86,14 @@ type Run struct {
 
 	yield yieldState
 
+	// Hist is the lock-free operation history (C17).
+	Hist History
+	// Aux carries scenario data from the bubble to the After hook.
+	Aux any
+	// NoLeakCheck: the scenario already reported the calls that never return;
+	// the goroutines they leave behind are the same fact, not a second finding.
+	NoLeakCheck bool
+
 	harnessG int // goroutines started by the harness that are still alive
 	mu       sync.Mutex
 }
@@ -355,6 +363,9 @@ type Scenario struct {
 	LeakClass string
 	// Yields enables the seeded yield scheduler for this scenario.
 	Yields bool
+	// After runs outside the bubble after the scenario function returned (real
+	// clock, real scheduler): history checkers such as porcupine go here.
+	After func(r *Run)
 }
 
 var scenarios = map[string]*Scenario{}
@@ -524,6 +535,9 @@ func Execute(sc *Scenario, base, index uint64, tier string, suppress []string, t
 	}()
 	common.VerifYieldHook = nil
 	debug.SetGCPercent(old)
+	if sc.After != nil && deadlock == "" {
+		sc.After(r)
+	}
 	if sc.Yields {
 		r.ProbeN("yield-sites-visited", int64(r.collectYields()))
 	}
@@ -536,7 +550,7 @@ func Execute(sc *Scenario, base, index uint64, tier string, suppress []string, t
 		res.Leaked = leaked
 		if strings.Contains(deadlock, "all goroutines in bubble are blocked") {
 			r.Viol = append(r.Viol, Violation{Class: "deadlock", Msg: "all goroutines blocked while the scenario was still running; blocked in: " + strings.Join(tops, ", ")})
-		} else if sc.LeakClass != "" {
+		} else if sc.LeakClass != "" && !r.NoLeakCheck {
 			r.Viol = append(r.Viol, Violation{Class: sc.LeakClass, Msg: fmt.Sprintf("%d goroutine(s) never finished: %s", leaked, strings.Join(tops, ", "))})
 		}
 	}
